@@ -108,13 +108,11 @@ EXPORT int sscanf_s(const char *restrict buffer, const char *restrict fmt,
     }
 
 #if defined(HAVE_STRSTR)
-    if (unlikely((p = strstr((char *)fmt, "%n")))) {
-        if ((p - fmt == 0) || *(p - 1) != '%') {
-            invoke_safe_str_constraint_handler("sscanf_s: illegal %n", NULL,
-                                               EINVAL);
-            errno = EINVAL;
-            return EOF;
-        }
+    if (unlikely((p = safec_fmt_find_n(fmt)) != NULL)) {
+        invoke_safe_str_constraint_handler("sscanf_s: illegal %n", NULL,
+                                           EINVAL);
+        errno = EINVAL;
+        return EOF;
     }
 #elif defined(HAVE_STRCHR)
     if (unlikely((p = strchr(fmt, flen, 'n')))) {
